@@ -55,6 +55,16 @@ def m_inline_new(engine, st, fr, callee, args, ops):
     raise mir.Unsupported("cannot resolve %s" % callee)
 
 
+def loader_models():
+    """Models for one loader step: the crate's constructors inlined; std slice / iterator idioms in case the step looks at
+    the instruction's operands (the operand list is two opaque operands)."""
+    import itermodels
+    import liftsym
+    return [(r"^(\w+::)*(Function|Block)::new$", m_inline_new),
+            (r"^core::slice::<impl \[.*\]>::first$", liftsym.m_slice_first),
+            (r"^core::slice::<impl \[.*\]>::last$", liftsym.m_slice_last)] + itermodels.MODELS
+
+
 def op_names():
     enums, _ = tables.spirv_decls()
     d = enums["Op"]
@@ -163,7 +173,7 @@ def run(ctx):
     op = z3.BitVec("op", 32)
     valid = z3.Or(*[op == z3.BitVecVal(v, 32) for v in sorted(names_of)])
     fn = mf.get("consume_instruction", file_hint="loader.rs", kind="fn")
-    models = [(r"^(\w+::)*(Function|Block)::new$", m_inline_new)]
+    models = loader_models()
     rp = Replay()
     cats = sorted(set(c for c in cat.values() if c))
     members = {c: [v for v, cc in cat.items() if cc == c] for c in cats}
@@ -174,7 +184,7 @@ def run(ctx):
             classv = sym.Adt("grammar::Instruction", None, [sym.StrV("?"), op, sym.Sym("caps", "&[Capability]"),
                                                            sym.Sym("exts", "&[&str]"), sym.Sym("operands", "&[LogicalOperand]")])
             inst = sym.Adt("Instruction", None, [sym.Ref(("h", "class"), ()), sym.Sym("rtype", "Option<u32>"), sym.Sym("rid", "Option<u32>"),
-                                                 sym.Sym("operands", "Vec<Operand>")])
+                                                 sym.Arr([sym.Sym("operand0", "dr::constructs::Operand"), sym.Sym("operand1", "dr::constructs::Operand")], "vec")])
             fval = sym.Adt("Option", "Some", [sym.Sym("curfn", "Function")]) if fopen else sym.Adt("Option", "None", [])
             bval = sym.Adt("Option", "Some", [sym.Sym("curblk", "Block")]) if bopen else sym.Adt("Option", "None", [])
             loader = sym.Adt("Loader", None, [sym.Sym("module", "Module"), fval, bval])
